@@ -237,6 +237,7 @@ func runC01(r *core.Run) {
 		nestSub(r, "nesting/"+cn, core.MustCfg(cn), core.Pick(r, 3, 4), func(s *core.Sub, cv *core.Conv, w []byte) { c01Case(s, cv, w) })
 		corpusSub(r, "structured-corpus/"+cn, core.MustCfg(cn), nil, func(s *core.Sub, cv *core.Conv, w []byte) { c01Case(s, cv, w) })
 		lengthSub(r, "lengths/"+cn, core.MustCfg(cn), core.Pick(r, 1100, 2200), func(s *core.Sub, cv *core.Conv, w []byte) { c01Case(s, cv, w) })
+		docsSub(r, "wide/"+cn, "documents in which one node has N children (N top-level paragraphs, list items, emphasis nodes, lines, quoted paragraphs, table rows, descriptions, ordered items) for N = 2^k-1, 2^k, 2^k+1, k = 8.."+fmt.Sprint(core.Pick(r, 16, 18))+": same oracle", core.MustCfg(cn), WideDocs(core.Pick(r, 16, 18)), func(s *core.Sub, cv *core.Conv, w []byte) { c01Case(s, cv, w) })
 		replSub(r, "replication/"+cn, core.MustCfg(cn), core.Pick(r, 150, 300), func(s *core.Sub, cv *core.Conv, w []byte) { c01Case(s, cv, w) })
 		if strings.Contains(cn, "attr") {
 			attrEntrySub(r, "attribute-entries/"+cn, core.MustCfg(cn), 3, func(s *core.Sub, cv *core.Conv, w []byte) { c01Case(s, cv, w) })
